@@ -12,8 +12,7 @@ EXPLANATION = (
     "an external API listed in the external summary table; from the sinks the check derives, for every suffix in "
     "{'', .gz, .bz2, .xz}, which file is addressed and whether the data is (de)compressed, and requires writer and reader of one "
     "format to agree -- and to (de)compress all three suffixes when the method's own docstring promises it; (SIB-10) util.xopen "
-    "maps .bz2/.gz/.xz to bz2/gzip/lzma.open, forwards the mode, and readers open in the mode class (text/binary) their writers "
-    "used; (FWD-live) encoding, sep, header, compress, allow_pickle and **kwargs each reach a callee; the ListOfDicts CSV reader "
+    "maps .bz2/.gz/.xz to bz2/gzip/lzma.open and forwards path and mode; (FWD-live) encoding, sep, header, compress, allow_pickle and **kwargs each reach a callee; the ListOfDicts CSV reader "
     "and writer agree on dialect and delimiter. Not decided: equality of values/dtypes after the trip, CSV quoting, Arrow types."
 )
 ASSUMPTIONS = ["external summary table (sa/tables.py ROUTES): pyarrow.csv.read_csv decompresses .gz/.bz2 by suffix, "
@@ -193,16 +192,6 @@ def check(ctx):
                        f"all three suffixes are {verb}ed" if not missing else
                        f"docstring says 'Will automatically {verb} if path ends in .bz2|.gz|.xz' but {missing} are not {verb}ed "
                        f"by the API the path is handed to", clause="really compressed on write and transparently decompressed on read")
-        # mode class agreement through xopen
-        wm = {d.strip("'\"")[-1] for k, d, _, f in ws if k == "xopen" and f is w or (k == "xopen" and "w" in d)}
-        rm = {d.strip("'\"")[-1] for k, d, _, f in rs if k == "xopen" and "r" in d}
-        wm = {m for m in wm if m in "tb"}
-        rm = {m for m in rm if m in "tb"}
-        if wm and rm:
-            ok = wm == rm
-            ctx.ob("SIB-10", r, f"mode class writer {sorted(wm)} / reader {sorted(rm)}", r.node, ok,
-                   "reader opens in the mode class its writer used" if ok else "text/binary mode differs between writer and reader",
-                   nontrivial=False)
     ctx.count("reader/writer methods routed", n_methods, 16)
     # -------------------------------------------------------------- FWD-live
     n_opts = 0
